@@ -140,7 +140,10 @@ def unplanUnits (U : Units) (s : CState) (p : Nat) (bits : List Bool) : CState Ã
     match unplanMembers U p s1 (membersOf U p) bits with
     | some s' => (s', true)
     | none => (s, false)
-  | _ => unplanUnitsGiven U s p bits
+  | _ =>
+    -- one-of: the planned member is un-planned; a rejected un-plan is reported (E16, one-of part: it used to say `true`)
+    let s1 := { s with planned := rem s.planned p, unplanned := add s.unplanned p }
+    ((unplanUnitsGiven U s p bits).1, (unplanMembers U p s1 (membersOf U p) bits).isSome)
 
 /-- `SolutionVehicle.Unplan` with the (non-fixed) stops-units `us` of that vehicle. As repaired
 (KNOWN_FINDINGS `fixed: property=C08`): the ROOT unit of every stops-unit is filed, and a rolled
